@@ -57,7 +57,10 @@ fn get_store_instructions<DstCells: Iterator<Item = CellRef>>(
     let mut ctx = casm!();
     let mut ap_change = 0;
     for (dst, mut cell_expr) in zip_eq(dst_cells, src_expr.cells.iter().cloned()) {
-        assert!(cell_expr.apply_known_ap_change(ap_change));
+        // Fails if the shifted reference is no longer addressable by an `i16` offset.
+        if !cell_expr.apply_known_ap_change(ap_change) {
+            return Err(InvocationError::IntegerOverflow);
+        }
         match cell_expr {
             CellExpression::Deref(operand) => add_instruction!(ctx, dst = operand),
             CellExpression::DoubleDeref(operand, offset) => {
